@@ -18,6 +18,7 @@ import Selene.Props.C01
 import Selene.Std.ProgLemmas
 import Selene.Scope.RefAt
 import Selene.Scope.MoreLints
+import Selene.Scope.Coherent
 namespace Selene.Props.C07
 open Selene.Scope Selene.Std Selene.Lua
 
@@ -222,6 +223,37 @@ example :
     (Core.analyse bound).firstRefCoherent = true ∧ libraryLints lib [] bound = [] ∧
     (libraryLints lib [] free).map (·.message.1) = ["standard library global `math` does not contain the field `nope`"] := by
   decide
+
+/-! ### … with the hypothesis on the syntax tree instead of on the machine's output
+
+`Scope/Coherent.lean` proves `firstRefCoherent` for every chunk whose *reference tokens* — every identifier in an
+expression position, every plain-name assignment target, the base name of every `function name…` statement,
+every `...` — carry pairwise distinct token indices (`Core.refTokens`, a list read off the tree; token indices are
+positions in source order, so a parsed file satisfies it; the driver evaluates it on every program as well). -/
+
+open Selene.Std.Prog in
+/-- **C07 (inside), for every chunk with pairwise distinct reference tokens, every library, every allow list.** -/
+theorem C07_std_inside_tree (l : SegLib) (allow : List (List String)) (b : Block)
+    (hn : (Core.refTokens b).Nodup)
+    (oc : Spec.Occ) (hoc : oc ∈ (Spec.resolve b).occs) (hc : SpecProof.counted oc = true)
+    (d : Nat) (hb : oc.binding.map (·.1) = some d) :
+    ∀ g ∈ libraryLints l allow b, g.root ≠ oc.tok :=
+  C07_std_inside l allow b (Core.analyse_firstRefCoherent b hn) oc hoc hc d hb
+
+open Selene.Std.Prog in
+/-- **C07 (outside), likewise.** -/
+theorem C07_std_outside_tree (l : SegLib) (allow : List (List String)) (b : Block)
+    (hn : (Core.refTokens b).Nodup)
+    (oc : Spec.Occ) (hoc : oc ∈ (Spec.resolve b).occs) (hc : SpecProof.counted oc = true) (hb : oc.binding = none)
+    (hna : ∀ oc' ∈ (Spec.resolve b).occs, SpecProof.assignsGlobal oc' = true → oc'.name ≠ oc.name) :
+    (∀ e : Lua.Expr, exprStart e = oc.tok →
+      stdExpr l (Core.analyse b).resolvedAt e = stdExpr l (fun _ => false) e ∧
+      deprExpr l (Core.analyse b).resolvedAt allow e = deprExpr l (fun _ => false) allow e) ∧
+    (∀ sp p ss, prefixStart p = oc.tok →
+      stdCall l (Core.analyse b).resolvedAt (.mk sp p ss) = stdCall l (fun _ => false) (.mk sp p ss) ∧
+      deprCall l (Core.analyse b).resolvedAt allow (.mk sp p ss) = deprCall l (fun _ => false) allow (.mk sp p ss) ∧
+      mustUseStmt l (Core.analyse b).resolvedAt (.call (.mk sp p ss)) = mustUseStmt l (fun _ => false) (.call (.mk sp p ss))) :=
+  C07_std_outside l allow b (Core.analyse_firstRefCoherent b hn) oc hoc hc hb hna
 
 /-! ## The two remaining lints that treat a name specially: `global_usage` (`_G`) and `unscoped_variables` -/
 
